@@ -87,6 +87,10 @@ class CustomAct(torch.nn.Module):
 	"""A user-defined activation that needs `additional_nonlinear_ops`."""
 
 	def forward(self, x):
+		# a seam *inside* a module that deep_lift_shap hooks (when the caller
+		# registers a rule for it): a failure here strikes after the forward
+		# pre-hook ran and before the forward hook did
+		ACTIVE.hit("act_forward")
 		return torch.tanh(x) * 0.5 + 0.1 * x
 
 
@@ -170,6 +174,9 @@ class GenModel(torch.nn.Module):
 
 	def forward(self, X, *args):
 		h = self.trunk(X).reshape(X.shape[0], -1)
+		for a in args:
+			# extra inputs modulate the features (so attributions depend on them)
+			h = h * (1.0 + 0.5 * torch.tanh(a.reshape(a.shape[0], -1)[:, :1].to(h.dtype)))
 		y = self.head(h)
 		for a in args:
 			y = y + a.reshape(a.shape[0], -1)[:, :1].to(y.dtype)
@@ -238,7 +245,7 @@ def gen_spec(r, L=None, need_nonlinear=True, allow_custom=True, allow_args=True,
 			placed = True
 		if r.chance(0.85):
 			nm = r.choice(names)
-			if allow_custom and r.chance(0.12):
+			if allow_custom and r.chance(0.3):
 				nm = "Custom"
 				uses_custom = True
 			trunk.append({"t": "act", "name": nm})
